@@ -81,10 +81,23 @@ func (w *worker) runHostile(cs J) J {
 	wantReply := true
 	if seq, ok := cs["seq"]; ok {
 		// several commands on one connection: each must get exactly one reply
+		// an argument "@DUMP" stands for the payload the last DUMP of this connection returned (a value that only
+		// the server can produce flows back into a later command)
+		var lastBulk []byte
 		for i, c := range jList(seq) {
+			cmd := jCmd(c)
+			for k, a := range cmd {
+				if string(a) == "@DUMP" {
+					cmd[k] = lastBulk
+				}
+			}
 			rc.c.SetWriteDeadline(time.Now().Add(2 * time.Second))
-			rc.c.Write(EncodeCmd(jCmd(c)))
-			if _, raw, err := rc.readValue(2 * time.Second); err != nil {
+			rc.c.Write(EncodeCmd(cmd))
+			rep, raw, err := rc.readValue(2 * time.Second)
+			if err == nil && rep != nil && rep.Kind == '$' && !rep.Null {
+				lastBulk = rep.Str
+			}
+			if err != nil {
 				res["status"] = "viol"
 				res["detail"] = fmt.Sprintf("command %d (%s): no single well-formed reply within 2 s: %v (bytes %q)", i+1, cmdString(jCmd(c)), err, trunc(raw, 100))
 				if !w.child.Alive() {
